@@ -100,3 +100,50 @@ def stdout_frame(repo, files, allowed):
                             'detail': detail, 'fn': key, 'site': key,
                             'witness': None if ok else {'file': rel, 'function': qn, 'statements': sites}})
     return records
+
+
+def open_encoding_frame(repo, files, allow_substrings, allow_functions=()):
+    """one record per function: every text-mode open()/codecs.open() names an encoding explicitly, unless the path expression
+    mentions one of allow_substrings (ASCII-only files such as config.ini or grammar.txt).  A reader that falls back to the
+    locale's default encoding cannot be related to the encoding the ruleset was written with."""
+    records = []
+    for rel in files:
+        path = os.path.join(repo, rel)
+        if not os.path.exists(path):
+            records.append({'name': 'encoding.match.%s.<file>' % rel, 'ok': False, 'detail': 'file is missing', 'site': rel})
+            continue
+        for qn, node in functions_of(path):
+            bad = []
+            for ch in ast.walk(node):
+                if isinstance(ch, ast.Call) and ast.unparse(ch.func) in ('open', 'codecs.open') and ch.args:
+                    mode = ast.unparse(ch.args[1]) if len(ch.args) > 1 else "'r'"
+                    for k in ch.keywords:
+                        if k.arg == 'mode':
+                            mode = ast.unparse(k.value)
+                    if 'b' in mode:
+                        continue
+                    has_enc = any(k.arg == 'encoding' for k in ch.keywords) or len(ch.args) > 2
+                    src = ast.unparse(ch.args[0])
+                    ctx = ast.unparse(node) if len(ast.unparse(node)) < 20000 else src
+                    if not has_enc and not any(a in src for a in allow_substrings) and not _path_is_allowed(node, ch, allow_substrings):
+                        bad.append((ch.lineno, 'open(%s, %s) without an encoding' % (src, mode)))
+            key = '%s:%s' % (rel, qn)
+            if key in allow_functions:
+                bad = []
+            records.append({'name': 'encoding.match.%s.%s' % (rel.replace('/', '.').replace('.py', ''), qn), 'ok': not bad,
+                            'detail': '; '.join('line %d: %s' % b for b in bad), 'fn': key, 'site': key,
+                            'witness': None if not bad else {'file': rel, 'function': qn, 'statements': bad}})
+    return records
+
+
+def _path_is_allowed(fn_node, call, allow_substrings):
+    """the path variable was assigned from an expression mentioning an allowed file name in the same function"""
+    if not (call.args and isinstance(call.args[0], ast.Name)):
+        return False
+    name = call.args[0].id
+    last = None
+    for n in ast.walk(fn_node):
+        if isinstance(n, ast.Assign) and any(isinstance(t, ast.Name) and t.id == name for t in n.targets) and n.lineno <= call.lineno:
+            if last is None or n.lineno > last.lineno:
+                last = n
+    return last is not None and any(a in ast.unparse(last.value) for a in allow_substrings)
